@@ -97,6 +97,13 @@ def step (st : Option Req) (line : String) : Option Req × String :=
     (match st with
      | some r => doEdit r kind arg a1 a2 a3 a4 a5 a6 a7 tbl
      | none => (st, "bad-op"))
+  | ["split", u, vb] =>
+    (match strField u with
+     | some a =>
+       (match pySplit (fun _ => vb = "1") a with
+        | some (sc, nl, rest) => (st, "ok " ++ showStr sc ++ " " ++ showStr nl ++ " " ++ showStr rest)
+        | none => (st, "err"))
+     | none => (st, "bad-op"))
   | ["reset"] => (none, "ok")
   | _ => (st, "bad-op")
 
